@@ -82,7 +82,7 @@ def run(ctx):
                      f"{sorted(pre)} -> {new}" + (f" (accepted {acc}: {ACCEPTED_EDGES[(f.short,) + acc[0]]})" if acc else "") if not bad else
                      f"'status = {new!r}' is reachable with status in {[b[0] for b in bad]}: lifecycle edge(s) {bad} are not in "
                      f"uninitialized -> running -> (done|error) -> stopped", a)
-    c.floor("R1", "status assignments on live interpreters", n, 9)
+    c.floor("R1", "status assignments on live interpreters", n, 5)
     fl = p.method("BaseInterpreter", "_fail")
     for v in VIEWS:
         r = roles(ctx, v)
